@@ -95,7 +95,10 @@ func judge(c *hc.Ctx, P *canvas.Path, class int, sample bool) {
 		return
 	}
 	open := !fp.Closed() || strings.Count(fp.String(), "M") != strings.Count(fp.String(), "z")
-	ovSelf, ovVert, ovShared := overlapClass(cp, delta)
+	ovSelf, ovSelfCrossed, ovVert, ovShared := overlapClass4(cp, delta)
+	if ovSelfCrossed {
+		c.Count("input:degenerate:self-overlap-crossed")
+	}
 	overl := ovSelf || ovVert || ovShared
 	nseg := 0
 	for _, ct := range cp {
@@ -250,11 +253,13 @@ func judgeClosedVariant(c *hc.Ctx, fp *canvas.Path, rule int) {
 // 4e-8 of each other over more than 1e-6 (they become coincident once the sweep snaps them).
 //
 //	+open                        a subpath without Close                            (recorded defect)
-//	+self-overlapping-edges      two edges of the SAME contour overlap: spike, contour
-//	                             traversed twice, 1e-8 thin sliver                   (recorded defect)
+//	+self-overlap-crossed        two edges of the SAME contour overlap (spike, contour traversed
+//	                             twice) and at least two other edges meet the common part strictly
+//	                             inside it                                            (recorded defect)
+//	+self-overlapping-edges      any other self-overlap: STRICT since batch 5 (719b7ec .. bd4354e)
 //	+near-vertical-overlapping-edges  two edges of different contours that are vertical after snapping
 //	                             overlap without coinciding exactly (x = -5.0000000009 next to
-//	                             x = -5)                                              (recorded defect)
+//	                             x = -5): STRICT since 719b7ec
 //	+shared-edges                any other overlap of edges of different contours (exactly shared
 //	                             edges of any direction, near-coincident non-vertical edges): STRICT
 //	                             since the sweep repairs e1c72e9 / 1501096 / 4e53250 — no known finding
@@ -262,8 +267,10 @@ func causeSuffix(open bool, cp [][]hc.P2) string {
 	if open {
 		return " +open"
 	}
-	self, vertical, shared := overlapClass(cp, delta)
+	self, selfCrossed, vertical, shared := overlapClass4(cp, delta)
 	switch {
+	case selfCrossed:
+		return " +self-overlap-crossed"
 	case self:
 		return " +self-overlapping-edges"
 	case vertical:
@@ -276,6 +283,14 @@ func causeSuffix(open bool, cp [][]hc.P2) string {
 
 // overlapClass: which kinds of overlapping edge pairs the contours contain.
 func overlapClass(cp [][]hc.P2, tol float64) (self, vertical, shared bool) {
+	self, _, vertical, shared = overlapClass4(cp, tol)
+	return
+}
+
+// overlapClass4 additionally reports selfCrossed: some pair of overlapping edges of one contour
+// whose common part is met (crossed or touched from outside its line) by at least two other edges
+// strictly inside it — the investigator's "cause 8" of corpus/C01/residue-rootcause.md.
+func overlapClass4(cp [][]hc.P2, tol float64) (self, selfCrossed, vertical, shared bool) {
 	type edge struct {
 		a, b hc.P2
 		ct   int
@@ -321,6 +336,25 @@ func overlapClass(cp [][]hc.P2, tol float64) (self, vertical, shared bool) {
 			switch {
 			case e.ct == f.ct:
 				self = true
+				if !selfCrossed {
+					met := 0
+					for k := range es {
+						if k == i || k == j {
+							continue
+						}
+						g := es[k]
+						s0, s1 := u.Cross(g.a.Sub(e.a)), u.Cross(g.b.Sub(e.a))
+						if (math.Abs(s0) < tol && math.Abs(s1) < tol) || (s0 > 0 && s1 > 0) || (s0 < 0 && s1 < 0) {
+							continue
+						}
+						tg := s0 / (s0 - s1)
+						te := g.a.Add(g.b.Sub(g.a).Mul(tg)).Sub(e.a).Dot(u)
+						if lo+1e-9 < te && te < hi-1e-9 {
+							met++
+						}
+					}
+					selfCrossed = met >= 2
+				}
 			case !exact && math.Abs(d.X) < tol && math.Abs(f.b.X-f.a.X) < tol:
 				vertical = true
 			default:
